@@ -152,6 +152,48 @@ def check_call_sites(ctx, db):
         ctx.check(ok, 'R-SHAPE', 'Cell::to_gds/limit@%d' % i.l, i.loc(), 'polygons above the limit are fractured with (max_points, precision) and every piece is written through Polygon::to_gds; others are written directly')
 
 
+def check_pieces_written(ctx, db):
+    """R-DEP: in every vertex-limit block of Cell::to_gds, what is written after the fracture are the pieces: the object of each
+    Polygon::to_gds call inside the block's loop is an element of the array that received the pieces, every element once
+    (affine loop summary); the unfractured polygon is written only on the other branch."""
+    from .. import loops as LP
+    f = db.fn('gdstk::Cell::to_gds')
+    sites = [i for i in f.walk() if i.k == 'IfStmt' and i.child('then') is not None and any(x.k == 'CXXMemberCallExpr' and (x.callee or '').endswith('Polygon::fracture') for x in i.child('then').walk())
+             and not any(a.k == 'IfStmt' and any(x.k == 'CXXMemberCallExpr' and (x.callee or '').endswith('Polygon::fracture') for x in a.child('then').walk()) for a in i.ancestors() if a.child('then') is not None)]
+    n = 0
+    for i in sites:
+        fr = next(x for x in i.child('then').walk() if x.k == 'CXXMemberCallExpr' and (x.callee or '').endswith('Polygon::fracture'))
+        dest = lvalue_key(_strip_casts(fr.args[2])) if len(fr.args) >= 3 else None
+        src = lvalue_key(_strip_casts(fr.child('obj'))) if fr.child('obj') is not None else None
+        writes = [x for x in i.child('then').walk() if x.k == 'CXXMemberCallExpr' and (x.callee or '').endswith('Polygon::to_gds')]
+        why = None
+        if dest is None or not writes:
+            why = 'no Polygon::to_gds call follows the fracture in this block'
+        for w in writes:
+            n += 1
+            L = LP.enclosing_loop(w)
+            if L is None or not any(a is i for a in L.ancestors()):
+                why = 'the pieces are not written inside a loop over the piece array'
+                break
+            lp = LP.Loop(f, L)
+            obj = _strip_casts(w.child('obj'))
+            ep = lp.addr(obj, w)
+            if ep is None and obj is not None and obj.k == 'DeclRefExpr' and obj.dk == 'local':
+                decls = [v for v in L.walk() if v.k == 'VarDecl' and v.d == obj.d and v.child('init') is not None]
+                reassigned = any((is_assign(x) or x.k == 'CompoundAssignOperator') and _strip_casts(x.child('lhs')).k == 'DeclRefExpr' and _strip_casts(x.child('lhs')).d == obj.d for x in L.walk())
+                if len(decls) == 1 and not reassigned:
+                    ep = lp.addr(decls[0].child('init'), decls[0])
+            if ep is None or lp.visits(ep, dest + '.items', {dest + '.count': 1}) is None or not LP.unconditional_in(w, L):
+                why = 'the object written at %s is `%s`, not each element of `%s` once: %s' % (w.loc(), obj.text() if obj is not None else '?', pretty(dest), 'the unfractured polygon is written once per piece' if obj is not None and lvalue_key(obj) == src else 'pieces are skipped or repeated')
+                break
+        ctx.check(why is None, 'R-DEP', 'Cell::to_gds/pieces-written@%d' % i.l, i.loc(), 'after the fracture every piece of the receiving array is written exactly once', why)
+    ctx.require('R-DEP piece writes', n, 3)
+
+
+def pretty(k):
+    return re.sub(r'^v\d+:', '', k or '?')
+
+
 def _modified(fn, name):
     """sites where parameter `name` of fn is written: assignment, compound assignment, ++/--, address taken"""
     out = []
@@ -208,6 +250,7 @@ def run(ctx):
     ctx.attempt(check_fracture, ctx, db)
     ctx.attempt(check_slice, ctx, db)
     ctx.attempt(check_call_sites, ctx, db)
+    ctx.attempt(check_pieces_written, ctx, db)
     ctx.attempt(check_limit_passthrough, ctx, db)
     ctx.attempt(C05.check_tree, ctx, db)
     from . import C20
